@@ -393,6 +393,7 @@ func (c *Cluster) pushPingMetrics(ctx context.Context) {
 // recent first.
 func (c *Cluster) Alerts() []api.Alert {
 	alerts := make([]api.Alert, len(c.alerts))
+	verifGate("alerts.sized")
 
 	c.alertsMux.Lock()
 	{
@@ -420,6 +421,7 @@ func (c *Cluster) alertsHandler() {
 			}
 
 			logger.Warnf("metric alert for %s: Peer: %s.", alrt.Name, alrt.Peer)
+			verifGate("alerts.append")
 			c.alertsMux.Lock()
 			{
 				if len(c.alerts) > maxAlerts {
